@@ -20,6 +20,13 @@ from .values import (SDict, Sym, SV, SList, SSet, SOpt, FuncRef, ModuleRef, Clas
 ISDIGIT = z3.Function("py_isdigit", z3.StringSort(), z3.BoolSort())
 
 
+class SuperRef:
+    """super() inside a method of class `cls` on object `obj`"""
+
+    def __init__(self, obj, cls):
+        self.obj, self.cls = obj, cls
+
+
 class BuiltinMixin:
     MUTATORS = {"append", "extend", "insert", "pop", "remove", "reverse", "sort", "add", "update", "clear",
                 "setdefault", "discard"}
@@ -272,6 +279,11 @@ class BuiltinMixin:
         if t in pyty:
             return pyty[t] in names or (t is TBool and "int" in names)
         raise Unsupported(f"isinstance({v!r}, {names})")
+
+    def bi_super(self, args, kwargs, st, node):
+        if args or self.cls is None or "self" not in st.env:
+            raise Unsupported("super() in this form")
+        return SuperRef(st.env["self"], self.cls)
 
     def bi_min(self, args, kwargs, st, node):
         if len(args) == 2:
